@@ -378,7 +378,11 @@ def gen_enc(chk, program, rule='GEN-ENC', mask_rule='ENC-MASK', want=('table', '
             if d.length is not None:
                 chk.check(r[1] == d.length, rule, f"{fname}::to_bytes.length", file=PG, line=t.ret[2], func=fname, expected=d.length, found=r[1])
             chk.ok(rule, f"{fname}::to_bytes.byteorder", file=PG, line=t.ret[2], func=fname, found='payload read as bits, byte 0 first')
-            chk.check(len(rows) == len(d.fields), rule, f"{fname}::piece-count", file=PG, line=line, func=fname, expected=len(d.fields), found=len(rows))
+            if len(rows) != len(d.fields):
+                # the bit reading found only some of the producers (parts of the payload come out of a loop or a container it does not follow): no verdict
+                chk.unknown(rule, f"{fname}::piece-count", f"payload read as bits: {len(rows)} of {len(d.fields)} producers found, the rest of the payload was not followed", PG, line)
+                continue
+            chk.check(True, rule, f"{fname}::piece-count", file=PG, line=line, func=fname, expected=len(d.fields), found=len(rows))
         elif 'table' in want:
             # serialisation
             targs = r[2]; tk = dict(r[3])
@@ -390,6 +394,10 @@ def gen_enc(chk, program, rule='GEN-ENC', mask_rule='ENC-MASK', want=('table', '
                 chk.check(ln is not None and not sym.is_const(ln), rule, f"{fname}::to_bytes.length", file=PG, line=t.ret[2], func=fname,
                           expected='computed from bit length (database has no Length)', found=show(ln) if ln else None, nontrivial=False)
             chk.check(bo == C('little'), rule, f"{fname}::to_bytes.byteorder", file=PG, line=t.ret[2], func=fname, expected='little', found=show(bo) if bo else None)
+            if len(rows) != len(d.fields) and any(s_[0] == 'opaque' and str(s_[1]).startswith('loop') for s_ in sym.walk(t.ret[1])):
+                # part of the payload is assembled by a loop the guard extractor only approximates: the pieces it did not see are not known to be missing
+                chk.unknown(rule, f"{fname}::piece-count", f"{len(rows)} of {len(d.fields)} pieces read; the payload also passes through a loop that was not followed", PG, line)
+                continue
             chk.check(len(rows) == len(d.fields), rule, f"{fname}::piece-count", file=PG, line=line, func=fname, expected=len(d.fields), found=len(rows))
             for (g, term, ln2) in t.raises:
                 # raises guarded only by "field is None" are dead code (get_field_by_id raises itself); others are reported
